@@ -67,6 +67,9 @@ type concCase struct {
 	// Request calls are carried out one at a time, so neither may ever run for two calls at once (race detector).
 	Hooks          bool `json:"hooks,omitempty"`
 	CountingParser bool `json:"counting_parser,omitempty"`
+	// ReadTimeoutMs: the client's total read timeout (0: 2 s). It bounds the time a call may spend READING its reply; the time a call
+	// spends waiting for its turn behind other callers is not part of it.
+	ReadTimeoutMs int `json:"read_timeout_ms,omitempty"`
 }
 
 // racyHooks is a ClientHooks implementation that is deliberately not safe for concurrent use.
@@ -163,6 +166,10 @@ func runConc(c concCase) harness.Result {
 	mon.ExcFor = func(r spec.Req) uint8 { return plans[r.Addr].Exc }
 	mon.Abandonable = func(r spec.Req) bool { return plans[r.Addr].CancelUs > 0 }
 	mon.Delay = func(r spec.Req) time.Duration { return time.Duration(plans[r.Addr].DelayUs) * time.Microsecond }
+	readTimeout := 2 * time.Second
+	if c.ReadTimeoutMs > 0 {
+		readTimeout = time.Duration(c.ReadTimeoutMs) * time.Millisecond
+	}
 	var do func(context.Context, packet.Request) (packet.Response, error)
 	var closeFn func() error
 	var connectFn func() error
@@ -174,7 +181,7 @@ func runConc(c concCase) harness.Result {
 			port = serialPortFlusher{sp}
 			mon.FlushDelay = time.Duration(c.FlushDelayUs) * time.Microsecond
 		}
-		opts := []modbus.SerialClientOptionFunc{modbus.WithSerialReadTimeout(2 * time.Second)}
+		opts := []modbus.SerialClientOptionFunc{modbus.WithSerialReadTimeout(readTimeout)}
 		if c.Hooks {
 			opts = append(opts, modbus.WithSerialHooks(&racyHooks{}))
 		}
@@ -182,7 +189,7 @@ func runConc(c concCase) harness.Result {
 		do, closeFn = sc.Do, sc.Close
 		connectFn = func() error { return nil }
 	} else {
-		conf := modbus.ClientConfig{ReadTimeout: 2 * time.Second, WriteTimeout: time.Second,
+		conf := modbus.ClientConfig{ReadTimeout: readTimeout, WriteTimeout: time.Second,
 			DialContextFunc: func(ctx context.Context, address string) (net.Conn, error) { return mon.NewConn(), nil }}
 		if c.Hooks {
 			conf.Hooks = &racyHooks{}
@@ -513,6 +520,32 @@ func TestSerialCancelWhileReading(t *testing.T) {
 					return
 				}
 			}
+		}
+	}
+}
+
+// TestQueuedCallersKeepTheirTimeout: five callers queue on one network client whose device takes 100 ms per reply; the client's read
+// timeout is 400 ms. Every exchange is well inside the timeout, so every caller must get its own reply - however long it waited for
+// its turn. (A failure is reported only if it repeats three times: the scenario depends on real time.)
+func TestQueuedCallersKeepTheirTimeout(t *testing.T) {
+	idx := 0
+	for _, kind := range []string{"tcp", "rtu-net"} {
+		idx++
+		if !harness.Mine(idx) {
+			continue
+		}
+		c := concCase{Kind: kind, Procs: 16, DevSeed: uint64(idx) + harness.Seed(), ReadTimeoutMs: 400}
+		for w := 0; w < 5; w++ {
+			c.Workers = append(c.Workers, []call{{FC: 3, Plan: uint64(w), DelayUs: 100000}})
+		}
+		ok := false
+		for attempt := 0; attempt < 3 && !ok; attempt++ {
+			if r := runConc(c); r.Err == nil {
+				ok = true
+			}
+		}
+		if !ok && !chkConc.Eval(t, c) {
+			return
 		}
 	}
 }
